@@ -779,8 +779,8 @@ class NN:
                 kind = {LEV: "LEV", HAM: "HAM", HAMREP: "HAMREP", CALLABLE: "CUST"}.get(f)
                 if kind:
                     return {"kind": kind, "ops": (d[2][0], d[2][1]), "implied": []}
-            if f in (LEV, HAM) and len(d[2]) == 2 and {k for k, _ in d[3]} == {"score_cutoff"}:
-                return None          # the capped distance: exact only under a guard on the same cut-off (check_site reads that form); otherwise not decided
+            if f in (LEV, HAM, HAMREP) and len(d[2]) == 2 and {k for k, _ in d[3]} == {"score_cutoff"}:
+                return None          # the capped distance (for the repository's own replacement: a parameter it gained later, whose use is not checked): exact only under a guard on the same cut-off (check_site reads that form); otherwise not decided
             if head(f) == "glob" and len(d[2]) == 2:
                 # some other two-argument function used as the distance: decided (wrong kind), not unreadable
                 return {"kind": "OTHER:" + f[1] + ("(" + ",".join(k for k, _ in d[3]) + ")" if d[3] else ""), "ops": (d[2][0], d[2][1]), "implied": []}
